@@ -412,13 +412,20 @@ def run_case(case: dict, ctx: Ctx) -> None:
         elif kind == "thermal":
             name = str(rng.choice(["k", "c"] + (["thickness"] if dim == 2 else [])))
         elif kind == "beam":
-            name = str(rng.choice(["E", "v"]))
+            name = str(rng.choice(["E", "v", "section"]))
         elif kind == "phasefield":
             name = str(rng.choice(["E", "Gc", "l0", "split", "regu"]))
         elif kind == "hyperelastic":
             name = str(rng.choice(["K"] + (["thickness"] if dim == 2 else [])))
         else:
             name = "thickness"
+        if name == "section" and force is None:
+            # another cross-section mesh is given to the beam of the live simulation (area, inertias and shear factors change)
+            g = cfg["geom"]
+            g["b"], g["h"] = float(g["b"] * rng.uniform(0.5, 1.6)), float(g["h"] * rng.uniform(0.5, 1.6))
+            with quiet():
+                live.structure.beams[0].section = bcm.rect_section(g["b"], g["h"])
+            return "param:section"
         if force == "array":
             name = {"elastic": "E", "thermal": str(rng.choice(["k", "c"]))}[kind]
         elif force is not None:
